@@ -359,7 +359,7 @@ def gen_repro(rng, cid, ncalls, bulk):
             body.append(c)
     seg = [{"k": "S", "a": s}] + body
     # some draws with another seed in between, so that the generator state differs before re-seeding
-    mid = [{"k": "S", "a": s ^ 1}, {"k": "I", "l": 0, "u": 1000, "r": "v", "n": 3}]
+    mid = [{"k": "S", "a": s ^ 1} if rng.random() < 0.5 else {"k": "M", "n": 2}, {"k": "I", "l": 0, "u": 1000, "r": "v", "n": 3}]
     case = make_case(cid, seg + mid + seg + [{"k": "RESET"}] + seg)
     case["repro"] = len(seg)
     return case
